@@ -191,9 +191,10 @@ theorem no_means_not_lc_equivalent (a b : BMat) (mode : Mode) (draws : List Bool
   rw [this] at hval
   exact absurd hval (by decide)
 
-/-- the full decision property as worded: the test answers yes exactly when one graph is reachable from the other by
-    local complementations (false for the code, D14: `decides_lc_equivalence_refuted`; proved on every other run:
-    `decides_lc_equivalence_off_the_shortcut`) -/
+/-- the full decision property as worded, for the whole-graph algorithm (`is_lc_equivalent` before the repair of D14,
+    `_is_lc_equivalent_component` after it): the test answers yes exactly when one graph is reachable from the other by local
+    complementations (false for it on disconnected graphs, D14: `decides_lc_equivalence_refuted`; proved on every other run:
+    `decides_lc_equivalence_off_the_shortcut`; for the repaired `is_lc_equivalent` see section 5) -/
 def decides_lc_equivalence_statement : Prop :=
   ∀ (a b : BMat) (mode : Mode) (draws : List Bool) (out : EqOut), 0 < a.r → a.r = b.r → a.c = a.r → b.c = b.r →
     Simple a.r a.f → Simple b.r b.f → mode ≠ .other → isLcEquivalent a b mode draws = .ok out →
@@ -222,7 +223,8 @@ set_option maxRecDepth 100000 in
 /-- the same for an edge plus an isolated vertex -/
 theorem shortcut_incomplete_K2K1 : answer K2K1 K2K1 = some none := by decide +kernel
 
-/-- hence "never a false no" is *false* for the code as it stands (replayed on the implementation on every run) -/
+/-- hence "never a false no" is *false* for the whole-graph algorithm (replayed on the implementation on every run while it is
+    unrepaired; the repaired `is_lc_equivalent` answers these inputs `yes`: `repaired_2K2_yes`) -/
 theorem never_a_false_no_refuted : ¬ never_a_false_no_statement := by
   intro h
   have hs : Simple 4 twoK2.f := by
@@ -412,7 +414,8 @@ theorem valid_clifford_iff_same_orbit (n : Nat) (A B : Adj) (hn : 0 < n) (hA : S
 /-- **the decision property, proved wherever the code is right**: on every run that says `yes`, and on every run that says
     `no` on the full-rank shortcut or after the exhaustive search (solution space of dimension ≤ 4), the answer is `yes`
     exactly when one graph is reachable from the other by local complementations.  What remains outside is only a `no` on the
-    pair-sum / random paths (dimension ≥ 5), where the code is wrong (D14, `decides_lc_equivalence_refuted`). -/
+    pair-sum / random paths (dimension ≥ 5), where the whole-graph algorithm is wrong on disconnected graphs (D14,
+    `decides_lc_equivalence_refuted`). -/
 theorem decides_lc_equivalence_off_the_shortcut (a b : BMat) (mode : Mode) (draws : List Bool) (out : EqOut)
     (hn : 0 < a.r) (hab : a.r = b.r) (ha : Simple a.r a.f) (hb : Simple b.r b.f)
     (e : isLcEquivalent a b mode draws = .ok out)
@@ -431,8 +434,9 @@ theorem decides_lc_equivalence_off_the_shortcut (a b : BMat) (mode : Mode) (draw
       · rw [hq] at hp; cases hp
       · exact absurd horb (no_means_not_lc_equivalent a b mode draws out hn ha e hq hp)
 
-/-- and the property as worded is *false* for the code as it stands (D14): two disjoint edges compared with themselves are
-    in the same orbit (empty sequence) and are answered `no` -/
+/-- and the property as worded is *false* for the whole-graph algorithm (D14): two disjoint edges compared with themselves are
+    in the same orbit (empty sequence) and are answered `no` — which is why the repaired `is_lc_equivalent` calls it on connected
+    components only -/
 theorem decides_lc_equivalence_refuted : ¬ decides_lc_equivalence_statement := by
   intro h
   have hs : Simple 4 twoK2.f := by
